@@ -595,6 +595,33 @@ func TestVerifC16(t *testing.T) {
 			}
 		}
 	}
+	// every kind of line break around the buffer boundaries of the line reader (4096, 8192): a break of
+	// several bytes (CR LF, NEL, LS, PS) cut in two by the end of a buffered chunk is still ONE break
+	if r.Shard == 0 {
+		for _, brk := range []string{"\r\n", "\r", "\n", "\u0085", "\u2028", "\u2029"} {
+			for _, at := range []int{4093, 4094, 4095, 4096, 4097, 8190, 8191, 8192} {
+				for _, head := range []int{0, 1} { // the long stretch as ONE line, or as many short lines
+					var src string
+					if head == 0 {
+						src = strings.Repeat("a", at) + brk
+					} else {
+						unit := "line" + brk
+						for len(src)+len(unit) <= at {
+							src += unit
+						}
+						src += strings.Repeat("b", at-len(src)) + brk
+					}
+					src += "second" + brk + "third" + brk + "fourth"
+					n := len(c16Lines(src))
+					for line := n - 3; line <= n; line++ {
+						for _, col := range []int{1, 3} {
+							c16Snippet(r, src, line, col)
+						}
+					}
+				}
+			}
+		}
+	}
 	// long lines (buffer sizes of line readers: 4 KiB, 64 KiB): a snippet, when shown, is still the
 	// referenced line
 	if r.Shard == 0 {
